@@ -1058,6 +1058,21 @@ def _state_matrix(M, B, K):
     return A
 
 
+def _slow_mode_grade(lam, h):
+    """SolveUnc's complex coefficients Ae, Be = O(h) are formed from terms of size 1/(lam^2 h): below |lam| h = 1e-2
+    they lose (|lam| h)^-2 digits by cancellation (the coupled-path counterpart of the (w h)^-3 rule of the uncoupled
+    path).  Returns None (out of scope: a mode with 5e-5 <= |lam| and |lam| h < 1e-3) or the factor by which
+    tolerances are graded ((1e-2 / (|lam| h))^2 in the band 1e-3 <= |lam| h < 1e-2, else 1)."""
+    a = np.abs(np.asarray(lam))
+    a = a[a >= 5.0e-5]
+    if a.size == 0:
+        return 1.0
+    lh = float(a.min() * h)
+    if lh < 1e-3:
+        return None
+    return max(1.0, (1e-2 / lh) ** 2)
+
+
 def _delconj_spec(pc, A):
     """the five conditions of DelconjSpec measured on the kept data: (residual, cond(fullU)) or a string"""
     lam = np.asarray(pc.lam)
@@ -1125,8 +1140,13 @@ def _corr_pc(ctx, drv):
             if cond > 1e6 or not pc.eig_success:
                 ctx.skip("pc: eigenvectors ill conditioned (cond > 1e6)")
                 continue
-            job["cond"] = cond
+            grade = _slow_mode_grade(pc.lam, h)
+            if grade is None:
+                ctx.skip("pc: a mode with |lam| h < 1e-3 (cancellation in Ae, Be: out of the conditioning domain)")
+                continue
+            job["cond"] = cond * grade
             ctx.count("pc:spec-checked")
+            _note("pc-eig-spec-residual-over-cond", res / max(10.0, cond))
             if not res <= 1e-9 * max(10.0, cond):
                 # the implementation's own decomposition does not satisfy the hypotheses of delconj_recovers
                 ctx.disagree("pc-eig-spec", inp, {"residual": res, "cond": cond}, "<= 1e-9*cond")
@@ -1259,6 +1279,7 @@ def _corr_exp2(ctx, drv):
         res = max(np.abs(E - Er).max() / es, np.abs(P - Pr).max() / (h * es),
                   0.0 if Q is None else np.abs(Q - Qr).max() / (h * es))
         ctx.count("exp2:spec-checked")
+        _note("exp2-epq-spec-residual", res)
         if not res <= 1e-8:
             # the implementation's own E, P, Q do not satisfy the hypotheses of exp2_step_exact
             ctx.disagree("exp2-epq-spec", inp, {"residual": float(res)}, "<= 1e-8")
@@ -1695,6 +1716,15 @@ def _oracle_general(s, fails):
                 return
 
     run("SolveExp2", lambda: ode.SolveExp2(M, B, K, h, order=o).tsolve(F, d0, v0), 1e-8)
+    grade = _slow_mode_grade(lam, h)
+    if grade is None:
+        # a very slow mode (5e-5 <= |lam|, |lam| h < 1e-3): the coefficients of the complex path are ill conditioned
+        # (cancellation of order (|lam| h)^-2): outside the conditioning domain of the property, like w h < 1e-3 on
+        # the uncoupled path
+        _WORST["general-SolveUnc-coupled-skipped-slow-mode"] = _WORST.get("general-SolveUnc-coupled-skipped-slow-mode", 0) + 1
+        condV = float("inf")
+    else:
+        condV = condV * grade
     if condV < 1e5 and s["nz"] == 0 or (condV < 1e5 and s["style"] == "skew-on-zero-stiffness" and s["nz"] >= 2):
         # the complex-eigenvalue path needs a diagonalisable state matrix; accuracy graded by cond(V)
         run("SolveUnc-coupled", lambda: ode.SolveUnc(M, B, K, h, order=o).tsolve(F, d0, v0), 1e-9 * max(10.0, condV))
